@@ -4,6 +4,76 @@ usage: run_py_threads.py <config.json> <resource_dir> <streams.json> <out.json>"
 import json
 import sys
 import threading
+import types
+
+# sudachipy needs the `tokenizers` package only for PreTokenizer.custom(obj), which wraps the adapter; when the package is
+# absent a stand-in returning the adapter itself is installed, so the adapter is driven exactly as tokenizers would:
+# adapter(index, string) from whatever thread does the encoding
+try:
+    import tokenizers  # noqa: F401
+    HAVE_TOKENIZERS = True
+except Exception:
+    HAVE_TOKENIZERS = False
+    _m = types.ModuleType("tokenizers")
+    _pm = types.ModuleType("tokenizers.pre_tokenizers")
+
+    class PreTokenizer:
+        @staticmethod
+        def custom(obj):
+            return obj
+
+    _pm.PreTokenizer = PreTokenizer
+    _m.pre_tokenizers = _pm
+    sys.modules["tokenizers"] = _m
+    sys.modules["tokenizers.pre_tokenizers"] = _pm
+
+
+def pretok_handler(index, string, morphemes):
+    # what a user-supplied handler does: walk the list it is handed
+    return [(m.surface(), m.begin(), m.end(), m.reading_form(), tuple(m.part_of_speech())) for m in morphemes]
+
+
+def pretok_phase(dic, streams):
+    """ONE adapter (Dictionary.pre_tokenizer with a handler) called from all threads vs its single-threaded answers"""
+    if HAVE_TOKENIZERS:
+        return 0, 0, None
+    try:
+        adapter = dic.pre_tokenizer(handler=pretok_handler)
+    except Exception as e:  # the binding may have been built without the adapter
+        return 0, 0, "pre_tokenizer unavailable: %s" % e
+    texts = sorted({t for s in streams for t in s if t})[:24]
+    if not texts:
+        return 0, 0, None
+    expected = [adapter(i, t) for i, t in enumerate(texts)]
+    old = sys.getswitchinterval()
+    sys.setswitchinterval(1e-5)
+    nthreads = max(2, min(8, len(streams)))
+    problems = []
+    lock = threading.Lock()
+    start = threading.Barrier(nthreads)
+    rounds = 40
+
+    def work(tid):
+        start.wait()
+        for r in range(rounds):
+            for k in range(len(texts)):
+                i = (k + tid + r) % len(texts)
+                try:
+                    got = adapter(i, texts[i])
+                except BaseException as e:
+                    got = "raised %s: %s" % (type(e).__name__, str(e)[:100])
+                if got != expected[i]:
+                    with lock:
+                        problems.append("pre-tokenizer adapter: thread %d text %r: %r instead of %r" % (tid, texts[i], str(got)[:120], str(expected[i])[:120]))
+                    return
+
+    ths = [threading.Thread(target=work, args=(t,)) for t in range(nthreads)]
+    for t in ths:
+        t.start()
+    for t in ths:
+        t.join()
+    sys.setswitchinterval(old)
+    return nthreads * rounds * len(texts), len(problems), (problems[0] if problems else None)
 
 
 def obs(ms):
@@ -55,7 +125,11 @@ def main():
     if after != expected:
         mism += 1
         example = example or "sequential results changed after the threaded run"
-    json.dump({"analyses": sum(len(s) for s in streams), "mismatches": mism, "example": example}, open(op, "w"), ensure_ascii=False)
+    n2, m2, ex2 = pretok_phase(dic, streams)
+    mism += m2
+    example = example or (ex2 if m2 else None)
+    json.dump({"analyses": sum(len(s) for s in streams) + n2, "mismatches": mism, "example": example, "pretokenizer_calls": n2,
+               "pretokenizer_note": (ex2 if not m2 else None)}, open(op, "w"), ensure_ascii=False)
 
 
 if __name__ == "__main__":
